@@ -697,6 +697,19 @@ func c08Prelude(t *testing.T, out *vfOut, base string) (n int) {
 		sc.query("ok.example.", false, ap("192.168.1.6"), "")
 		sc.finish(out, "prelude-clients")
 	}
+	// KNOWN FINDING C08-maclike-clientid-resolved-as-mac, minimal witness: the
+	// request belongs to b (by its /24), the finders read the ClientID as a's MAC
+	for _, anon := range []bool{false, true} {
+		sc := c08New(t, base, n, anon, false, nil, nil)
+		n++
+		sc.addClient("b", []string{"192.168.1.0/24"}, true, true)
+		sc.addClient("a", []string{"aa:bb:cc:dd:ee:01"}, false, false)
+		sc.query("ok.example.", false, ap("192.168.1.5"), "aa-bb-cc-dd-ee-01")
+		sc.query("ok.example.", false, ap("192.168.1.5"), "")
+		sc.search("memory")
+		sc.finish(out, "prelude-maclike-clientid")
+	}
+
 	// anonymisation switched while running
 	sc := c08New(t, base, n, false, false, []string{"||ads.test^"}, nil)
 	n++
